@@ -45,7 +45,7 @@ Definition op_ok (m : mmstate) (o : mop) : bool :=
        | Some c => negb (String.eqb key "") || negb (limit =? 0)%Z || negb (rev_bad rev_ (ch_epoch c))
        | None => String.eqb key "" && match rev_ with None => true | Some _ => false end
        end)%bool
-  | MClear _ | MTick _ | MCleanup _ _ => false
+  | MClear _ | MTick _ | MCleanup _ _ | MStats _ => false
   end.
 
 Fixpoint run_ok (cf : mcfg) (m : mmstate) (ops : list mop) : bool :=
@@ -56,7 +56,7 @@ Fixpoint run_ok (cf : mcfg) (m : mmstate) (ops : list mop) : bool :=
 
 Definition op_chan (o : mop) : list string :=
   match o with
-  | MPublish ch _ _ _ _ | MRemove ch _ _ _ _ | MReadState ch _ _ _ _ _ _ | MReadStream ch _ _ _ _ _ | MClear ch => [ch]
+  | MPublish ch _ _ _ _ | MRemove ch _ _ _ _ | MReadState ch _ _ _ _ _ _ | MReadStream ch _ _ _ _ _ | MClear ch | MStats ch => [ch]
   | MTick _ | MCleanup _ _ => []
   end.
 Definition chans (ops : list mop) : list string := flat_map op_chan ops.
@@ -568,7 +568,7 @@ Proof.
   set (cf := mkMC 3 0 size sttl 0 false).
   pose proof (R_clear _ _ _ _ HR) as HR0. set (rs0 := clear_outbox rs) in *.
   pose proof (R_chan _ _ _ _ HR0 ch Hin) as Hrel.
-  unfold step_goal. unfold rm_step. fold rs0. cbn [mm_step]. unfold rm_read_state.
+  unfold step_goal. unfold rm_step. fold rs0. cbn [mm_step mc_ordered cf andb]. unfold rm_read_state.
   destruct (sfind ch (mm_chans m)) as [c|] eqn:Ec.
   - destruct Hrel as (h & g & smh & Vm & Hh & Hg & Hgi & Vst & Vs & Vsm & Hsmc & Ve).
     destruct (R_inv _ _ _ _ HR0 ch c Ec) as (Hep & Htop & Hcontig & Hents).
@@ -632,7 +632,7 @@ Lemma step_ok U n cf rs m o :
   cfg_ok cf = true -> keys_ok U -> (forall ch, In ch (op_chan o) -> In ch U) -> R U n rs m ->
   (Z.of_N n < mc_size cf)%Z -> op_ok m o = true -> step_goal U n cf rs m o.
 Proof.
-  intros Hcf HK Hin HR Hn Hok. destruct o as [ch key po nonce now_|ch key ro nonce now_|ch rev_ limit key asc nr nm|ch since limit reverse nr nm|ch|ms|cnow cnode];
+  intros Hcf HK Hin HR Hn Hok. destruct o as [ch key po nonce now_|ch key ro nonce now_|ch rev_ limit key asc nr nm|ch since limit reverse nr nm|ch|ms|cnow cnode|sch];
     cbn [op_ok] in Hok; try discriminate Hok.
   - apply andb_true_iff in Hok as [H1 H2]. apply step_publish; try assumption. apply Hin. left. reflexivity.
   - apply andb_true_iff in Hok as [H1 H3]. apply andb_true_iff in H1 as [H1 H2].
